@@ -1,7 +1,7 @@
 """C14 — imported and plugin fixtures are discovered transitively and classified."""
 from .. import core
 from ..pybuild import hx
-from .common import Run, corpus_cases, generic_replay, check_spec, parse_list, split_spec
+from .common import check_imported, Run, corpus_cases, generic_replay, check_spec, parse_list, split_spec
 from .c03 import parse_def
 
 PROP = "C14"
@@ -70,6 +70,14 @@ def gen_imports(rng):
             elif r[0] == "abs":
                 m["body"].append(rng.choice(['pytest_plugins = ["%s"]\n', 'pytest_plugins = ("%s",)\n', 'pytest_plugins: list = ["%s"]\n',
                                             'pytest_plugins = "%s"\n', 'pytest_plugins = ["%s"]\npytest_plugins: list\n']) % r[1])
+    # two modules that star-import each other (a set cut short by the circular-import guard must never be taken
+    # for a module's complete set, whichever of them is asked about first)
+    if len(mods) >= 2 and rng.random() < 0.35:
+        a, b = rng.sample(mods, 2)
+        ra, rb = ref(a["dir"], b, "rel") or ref(a["dir"], b, "abs"), ref(b["dir"], a, "rel") or ref(b["dir"], a, "abs")
+        if ra is not None and rb is not None:
+            a["body"].append("from %s import *\n" % ra[1])
+            b["body"].append("from %s import *\n" % rb[1])
     # conftests import some modules
     confs = {}
     for d in dirs[:4]:
@@ -295,6 +303,7 @@ def run(tier, seed):
     r.evaluations = len(ia)
     r.correspond(cases, ia, ma)
     check_spec(r, cases, ia, ma, sp, kinds=("resolve",))
+    check_imported(r, cases, ia, ma, sp)
     # venv oracle
     nexp = 0
     for (name, files, expect) in venv_cases:
